@@ -144,7 +144,7 @@ def _validate_shard(args):
     return tlc.validate(trace_mod, cfg, path, tag, n_ev, n_tr)
 
 
-def validate_all(prop, trace, traces, max_events=25000, jvms=8):
+def validate_all(prop, trace, traces, max_events=25000, jvms=10):
     """Shard traces into files, validate each shard with one TLC run (workers 1). Returns rejects as
     (trace_index0, pos1, clause) and the total number of TLC states explored."""
     trace_mod, cfg = trace
@@ -152,6 +152,8 @@ def validate_all(prop, trace, traces, max_events=25000, jvms=8):
     os.makedirs(d, exist_ok=True)
     for f in os.listdir(d):
         os.remove(os.path.join(d, f))
+    total_ev = sum(len(t["ev"]) for t in traces)
+    max_events = max(1500, min(max_events, total_ev // (2 * jvms) + 1))     # enough shards to keep all JVMs busy
     shards, cur, cur_ev = [], [], 0
     for i, tr in enumerate(traces):
         cur.append(i)
